@@ -189,11 +189,12 @@ PROPS["C20"] = dict(
 )
 
 PROPS["C15"] = dict(
-    modules=["Proofs.C15"],
+    modules=["Proofs.C15", "Proofs.C15Locks"],
     theorems=["Goflow.C15.decodeFlow_congr", "Goflow.C15.parallel_eq_sequential", "Goflow.C15.per_datagram_order",
-              "Goflow.C15.sflow_readOnly", "Goflow.C15.skeleton_matches"],
+              "Goflow.C15.sflow_readOnly", "Goflow.C15.skeleton_matches",
+              "Goflow.C15Locks.load_guarded", "Goflow.C15Locks.store_guarded", "Goflow.C15Locks.lock_discipline"],
     count_all=True,
-    level_text="PARTIAL: theorems take whole DecodeFlow calls as atomic steps and prove that for read-only workloads every processing order yields, per datagram, the messages of processing it alone on the prologue state (multiset equality and per-datagram order); data-race freedom and interleavings inside one call are explored with the race detector on the real code (2..32 goroutines, shared pipes), not proved.",
+    level_text="PARTIAL: theorems take whole DecodeFlow calls as atomic steps and prove that for read-only workloads every processing order yields, per datagram, the messages of processing it alone on the prologue state (multiset equality and per-datagram order); for the four shared maps (pipe templates, producer sampling systems, a template system's templates, a sampling system's rates) a lockset checker runs, kernel-evaluated, over the lock / access / block events regenerated from the source on every run (lock_discipline), and load_guarded / store_guarded prove what its verdict means for every event list; data-race freedom of everything else and interleavings inside one call are explored with the race detector on the real code (2..32 goroutines, shared pipes, templates and rates re-announced while data is cut with them), not proved.",
     generators=[dict(name="C15", quick=6, thorough=200, subseeds=8)],
     harness=["impl"],
     race=["impl"],
